@@ -542,10 +542,57 @@ class Body:
                ('discr', expr) ('place', base_expr, fields, has_deref)
         """
         if op["k"] == "const":
+            if "promoted" in op:
+                pv = self.promoted_value(op["promoted"])
+                if pv is not None:
+                    return pv
             return ("const", op)
         if op["k"] not in ("copy", "move"):
             return ("unknown", op)
         return self.place_expr(op["place"], depth)
+
+    def promoted_value(self, n):
+        """Value of promoted constant `n` (e.g. `&InterpreterState::NewInterpreterRequested`) as an expr."""
+        for p in self.raw.get("promoted", []):
+            if p["i"] != n:
+                continue
+            defs = {}
+            for blk in p["blocks"]:
+                for st in blk["stmts"]:
+                    if st["k"] == "assign" and not st["place"]["proj"]:
+                        defs[st["place"]["local"]] = st["rv"]
+
+            def val(rv, d=0):
+                if d > 6:
+                    return ("unknown", rv)
+                k = rv["k"]
+                if k == "ref":
+                    pl = rv["place"]
+                    if not pl["proj"] and pl["local"] in defs:
+                        return ("ref", val(defs[pl["local"]], d + 1), False)
+                    return ("unknown", rv)
+                if k == "use":
+                    o = rv["op"]
+                    if o["k"] == "const":
+                        return ("const", o)
+                    if o["k"] in ("copy", "move") and not o["place"]["proj"] and o["place"]["local"] in defs:
+                        return val(defs[o["place"]["local"]], d + 1)
+                    return ("unknown", rv)
+                if k == "aggregate":
+                    ops = []
+                    for o in rv["ops"]:
+                        if o["k"] == "const":
+                            ops.append(("const", o))
+                        elif o["k"] in ("copy", "move") and not o["place"]["proj"] and o["place"]["local"] in defs:
+                            ops.append(val(defs[o["place"]["local"]], d + 1))
+                        else:
+                            ops.append(("unknown", o))
+                    return ("agg", norm(rv.get("adt") or rv.get("agg")), rv.get("variant"), ops)
+                return ("unknown", rv)
+
+            if 0 in defs:
+                return val(defs[0])
+        return None
 
     def place_expr(self, place, depth=12):
         base = self._local_expr(place["local"], depth)
